@@ -246,7 +246,7 @@ def files(ck, prop, tmp, n):
             problems += bad if prop == "C10" else []
             case["impl"] = impl
             case["gsi_impl"] = gsi
-        r = ck.driver([case])[0]
+        r, rl = ck.driver([case, {"op": "sort.lines", "nodes": case["nodes"], "lines": lines}])
         model_order = [m["ord"] for m in r["model"]]
         sns = [m["suffix"].split("\t")[2][5:] for m in r["model"]]
         ivs = [m["suffix"].split("\t")[3][5:] for m in r["model"]]
@@ -285,6 +285,8 @@ def files(ck, prop, tmp, n):
         impl_order = [x["ord"] for x in case["impl"]]
         if prop in ("C08", "C09") and (impl_order != model_order or [x["suffix"] for x in case["impl"]] != [m["suffix"] for m in r["model"]]):
             ck.disagreement("run_sort output differs from the model's", dict(replay, impl=case["impl"], model=r["model"]))
+        if prop in ("C08", "C09") and rl["model"] != obs["lines"]:
+            ck.disagreement("the written lines differ from the model's text layer (sortLines)", dict(replay, impl=obs["lines"][:20], model=(rl["model"] or [])[:20]))
         if prop == "C10" and sorted(map(tuple, case["gsi_impl"])) != sorted(map(tuple, r["gsi_model"])):
             ck.disagreement(".gsi differs from the model's", dict(replay, impl=case["gsi_impl"], model=r["gsi_model"]))
         # C08: the order does not depend on the input order (up to exact ties)
